@@ -1,68 +1,43 @@
 _R = "netutil/reversed.go"
 _N = ["./netutil/"]
+
+# Tried and dropped because the pinned tests already catch them (TESTS-FAIL): `idx >= 0` in the loops of
+# indexFirstV4Label / indexFirstV6Label; the `octetIdx == 0` break removed from ipv4NetFromReversed; `l <= arpaV6MaxLen`
+# in IPFromReversedAddr; `l >= arpaV6MaxLen-1` and `l > arpaV6MaxLen+2` in subnetFromReversedV6; `dots > 4` in
+# subnetFromReversedV4; the `l == 1` shortcut removed from IsValidHostnameLabel; `label == ""` removed from
+# ValidateServiceNameLabel; `len(domain) > len(top)` in IsSubdomain; `len(s) == 1` removed from countIPv6SepRunes;
+# `i <= strLen` in IsValidIPString; `data[:commIdx-1]` and `data[endIdx+2:]` in hostsfile/record.go; the `l == 0` check
+# removed altogether from URL.UnmarshalJSON (TestURL_UnmarshalJSON/nil pins it; the nil-only variant below passes).
+# Tried and dropped because they cannot panic (equivalent for this property): `nibbleIdx >= -1` in ipv6NetFromReversed
+# (the index is even), `&&` for `||` in splitAddrPort, the `u.User == nil` check removed from RedactUserinfoInURLError.
 MUTATIONS = [
-    # Reverts of the two halves of the ExtractReversedAddr fix (the historical panic).
+    # Reverts of the two halves of the ExtractReversedAddr fix (the historical panic): "aa.ip6.arpa" / "aip6.arpa".
     dict(name="c01-revert-v6-first-label-boundary", prop="C01", file=_R, tests=_N,
          edits=[("if curIdx > 0 && domain[curIdx-1] != '.'", "if curIdx > 1 && domain[curIdx-1] != '.'")]),
     dict(name="c01-revert-root-alignment", prop="C01", file=_R, tests=_N,
          edits=[("domLen < sufLen || domain[domLen-sufLen] == '.'", "domLen <= sufLen || domain[domLen-sufLen] == '.'")]),
-    # CANDIDATES
-    dict(name="c01-v4-label-scan-past-start", prop="C01", file=_R, tests=_N,
-         edits=[("labelsNum < net.IPv4len && idx > 0; labelsNum++", "labelsNum < net.IPv4len && idx >= 0; labelsNum++")]),
-    dict(name="c01-v6-label-scan-past-start", prop="C01", file=_R, tests=_N,
-         edits=[("labelsNum < net.IPv6len*2 && idx > 0; labelsNum++", "labelsNum < net.IPv6len*2 && idx >= 0; labelsNum++")]),
-    dict(name="c01-v4-net-no-break", prop="C01", file=_R, tests=_N,
-         edits=[("		if octetIdx == 0 {\n			// Prevent slicing with negative indices.\n			break\n		}\n", "")]),
-    dict(name="c01-v6-full-len-le", prop="C01", file=_R, tests=_N,
-         edits=[("		if l == arpaV6MaxLen {\n			return ipv6FromReversed(arpa)", "		if l <= arpaV6MaxLen {\n			return ipv6FromReversed(arpa)")]),
-    dict(name="c01-v6-subnet-full-len-ge", prop="C01", file=_R, tests=_N,
-         edits=[("	if l := len(arpa); l == arpaV6MaxLen {", "	if l := len(arpa); l >= arpaV6MaxLen-1 {")]),
-    dict(name="c01-v4-subnet-dots-ge", prop="C01", file=_R, tests=_N,
-         edits=[("		if dots > 3 {\n", "		if dots > 4 {\n")]),
-    dict(name="c01-v6-net-no-dot-check", prop="C01", file=_R, tests=_N,
-         edits=[("	for ; nibbleIdx >= 0; nibbleIdx -= nibbleLen {\n		if arpa[nibbleIdx+1] != '.' {",
-                 "	for ; nibbleIdx >= -1; nibbleIdx -= nibbleLen {\n		if arpa[nibbleIdx+1] != '.' {")]),
-    dict(name="c01-hostlabel-no-single", prop="C01", file="netutil/addr.go", tests=_N,
-         edits=[("	if r := rune(label[0]); !IsValidHostOuterRune(r) {\n		return false\n	} else if l == 1 {\n		return true\n	}\n",
-                 "	if r := rune(label[0]); !IsValidHostOuterRune(r) {\n		return false\n	}\n")]),
-    dict(name="c01-srvlabel-no-empty", prop="C01", file="netutil/addr.go", tests=_N,
-         edits=[('	if label == "" || label == "_" {', '	if label == "_" {')]),
-    dict(name="c01-issubdomain-no-len", prop="C01", file="netutil/addr.go", tests=_N,
-         edits=[("	return len(domain) > len(top)+1 &&\n		strings.HasSuffix(domain, top) &&", "	return len(domain) > len(top) &&\n		strings.HasSuffix(domain, top) &&")]),
+    # isIPv4Label without the empty-label guard: label[0] on "" ("1..", "0.:").
     dict(name="c01-ipv4label-no-empty", prop="C01", file="netutil/ip.go", tests=_N,
          edits=[("	case l < 1, l > 3:\n		return false", "	case l > 3:\n		return false")]),
-    dict(name="c01-v6-sep-colon-at-end", prop="C01", file="netutil/ip.go", tests=_N,
-         edits=[("		s[0] != ':',\n		// Colon at the end.\n		len(s) == 1:\n", "		s[0] != ':':\n")]),
-    dict(name="c01-splitaddrport-brackets", prop="C01", file="netutil/ip.go", tests=_N,
-         edits=[('		if !strings.HasPrefix(ip, "[") || !strings.HasSuffix(ip, "]") {', '		if !strings.HasPrefix(ip, "[") && !strings.HasSuffix(ip, "]") {')]),
+    # IPNetToPrefixNoMapped without its nil check: subnet.IP on a nil subnet.
     dict(name="c01-ipnet-nomapped-nil", prop="C01", file="netutil/addrconv.go", tests=_N,
          edits=[("	if subnet == nil {\n		return netip.Prefix{}, errors.Error(\"nil subnet\")\n	}\n\n	if ip4 := subnet.IP.To4(); ip4 != nil {",
                  "	if ip4 := subnet.IP.To4(); ip4 != nil {")]),
+    # Record.MarshalText sizes the buffer one byte short per name instead of one over: slices.Grow panics on a negative
+    # size for a record whose names are all empty.
     dict(name="c01-record-marshal-grow", prop="C01", file="hostsfile/record.go", tests=["./hostsfile/"],
          edits=[("		namesLen += 1 + len(name)\n", "		namesLen += len(name) - 1\n")]),
-    dict(name="c01-record-comment-trim", prop="C01", file="hostsfile/record.go", tests=["./hostsfile/"],
-         edits=[("		data = data[:commIdx]\n", "		data = data[:max(commIdx, 1)-1]\n")]),
-    dict(name="c01-cutstringfield-skip-sep", prop="C01", file="hostsfile/record.go", tests=["./hostsfile/"],
-         edits=[("		return data[:endIdx], strings.TrimLeft(data[endIdx:], spaces)", "		return data[:endIdx], strings.TrimLeft(data[endIdx+2:], spaces)")]),
+    # ContainsFold keeps scanning when the rest is shorter than the needle: s[:substrLen] out of range when a shorter
+    # fold variant of the first rune (k for the Kelvin sign) is found near the end.
     dict(name="c01-containsfold-no-len-cond", prop="C01", file="stringutil/stringutil.go", tests=["./stringutil/"],
          edits=[("	for i := 0; i != -1 && len(s) >= len(substr); {", "	for i := 0; i != -1; {")]),
+    # URL.UnmarshalJSON tests for nil instead of for empty input: b[0] on []byte{}.
     dict(name="c01-urljson-nil-not-empty", prop="C01", file="netutil/urlutil/url.go", tests=["./netutil/urlutil/"],
          edits=[("	l := len(b)\n	if l == 0 {", "	l := len(b)\n	if b == nil {")]),
-    dict(name="c01-urljson-no-empty", prop="C01", file="netutil/urlutil/url.go", tests=["./netutil/urlutil/"],
-         edits=[("	if l == 0 {\n		return errors.Error(\"empty json value for url\")\n	}\n\n", "")]),
-    dict(name="c01-redact-error-no-user-check", prop="C01", file="netutil/urlutil/urlutil.go", tests=["./netutil/urlutil/"],
-         edits=[("	if u.User == nil {\n		return\n	}\n\n	errURL.URL", "	errURL.URL")]),
-    dict(name="c01-validate-ip-string", prop="C01", file="netutil/ip.go", tests=_N,
-         edits=[("	for i, significant := 0, 0; i < strLen && significant <= maxSignificant; i++ {", "	for i, significant := 0, 0; i <= strLen && significant <= maxSignificant; i++ {")]),
-    dict(name="c01-v6-subnet-too-long-slack", prop="C01", file=_R, tests=_N,
-         edits=[("	} else if l > arpaV6MaxLen {", "	} else if l > arpaV6MaxLen+len(\"0.\") {")]),
-    dict(name="c01-record-comment-trim2", prop="C01", file="hostsfile/record.go", tests=["./hostsfile/"],
-         edits=[("		data = data[:commIdx]\n", "		data = data[:commIdx-1]\n")]),
+    # Duration.String: `> 0` for `!= 0` lets negative durations with seconds through to the "0m0s" cut: "-1s"[:-1].
     dict(name="c01-duration-negative-seconds", prop="C01", file="timeutil/duration.go", tests=["./timeutil/"],
          edits=[("		rounded%60 != 0:", "		rounded%60 > 0:")]),
+    # ValidateGRPCURL without its nil check (nil is handled and answered with an error today).
     dict(name="c01-grpcurl-nil", prop="C01", file="netutil/urlutil/urlutil.go", tests=["./netutil/urlutil/"],
          edits=[("	if u == nil {\n		return fmt.Errorf(\"bad grpc(s) url: %w\", errors.ErrNoValue)\n	}\n\n", "")]),
-    dict(name="c01-ipnet-nil", prop="C01", file="netutil/addrconv.go", tests=_N,
-         edits=[("	if subnet == nil {\n		return netip.Prefix{}, errors.Error(\"nil subnet\")\n	}\n\n	addr, err := IPToAddr(subnet.IP, fam)",
-                 "	addr, err := IPToAddr(subnet.IP, fam)")]),
 ]
